@@ -1,6 +1,6 @@
 (** Statement pins for C15. *)
-From RsM Require Import Lib.MachInt Model.Mrp Model.Nonce
-  Proofs.NonceTheorems Proofs.NonceAlloc Props.C15.
+From RsM Require Import Model.Packet Lib.MachInt Model.Mrp Model.Nonce
+  Proofs.NonceTheorems Proofs.NonceAlloc Proofs.NonceAead Props.C15.
 From Coq Require Import Sorted.
 Open Scope N_scope.
 
@@ -20,3 +20,23 @@ Check (C15_exchange_id_fresh : forall fuel cursor live id cursor',
   1 <= cursor < two16 ->
   next_exch_id fuel cursor live = Some (id, cursor') ->
   ~ In id (initiator_ids live) /\ 1 <= id < two16).
+Check (C15_nonce_unique_anywhere : forall (ctr : N) (nex : nat) (case : bool) (ops : list sop),
+  honest (sess_at ctr nex case) ops = true ->
+  forall w1 w2, In w1 (snd (fst (sess_run (sess_at ctr nex case) ops))) ->
+                In w2 (snd (fst (sess_run (sess_at ctr nex case) ops))) ->
+                w_ctr w1 = w_ctr w2 -> w1 = w2).
+Check (C15_wire_counters_fit : forall (ctr : N) (nex : nat) (case : bool) (ops : list sop),
+  ctr < two32 -> honest (sess_at ctr nex case) ops = true ->
+  forall w, In w (snd (fst (sess_run (sess_at ctr nex case) ops))) -> w_ctr w < two32).
+Check (C15_counter_exhaustion_refused : forall s e x m rel,
+  nth_error (s_ex s) e = Some x -> pending_ctr x = None -> two32 <= s_ctr s + 1 ->
+  sess_send s e m rel = (mkSess (s_ctr s) (s_ex s) true (s_case s), Err ERR_CTR_EXHAUSTED)).
+Check (C15_one_nonce_one_plaintext :
+  forall (key sf node ctr : N) (frame : wire -> list N * list N)
+         (nex : nat) (case : bool) (ops : list sop),
+  sf < 256 -> node < two64 -> ctr < two32 ->
+  honest (sess_at ctr nex case) ops = true ->
+  forall w1 w2, In w1 (snd (fst (sess_run (sess_at ctr nex case) ops))) ->
+                In w2 (snd (fst (sess_run (sess_at ctr nex case) ops))) ->
+                same_key_nonce (sealed_for key sf node frame w1) (sealed_for key sf node frame w2) ->
+                sealed_for key sf node frame w1 = sealed_for key sf node frame w2).
